@@ -320,6 +320,10 @@ def grid_len(v) -> Optional[Poly]:
 # ---------------------------------------------------------------------------------------------------------------------
 def binop(interp, op, l: V, r: V, node=None) -> Optional[V]:
     name = type(op).__name__
+    if isinstance(l, BoundExt):
+        l = Term("attr." + l.name, [l.recv])
+    if isinstance(r, BoundExt):
+        r = Term("attr." + r.name, [r.recv])
     # python list algebra
     if isinstance(l, ListV) and isinstance(r, ListV) and isinstance(op, ast.Add):
         out = interp.new_list(copy_items(l.items) + copy_items(r.items), l.kind)
@@ -743,6 +747,8 @@ def grid_subscript(interp, g: Grid, idx: V, node) -> V:
             return Term("gather", [g, it])
         if isinstance(it, Term):
             return Term("gather", [g, it])
+        if isinstance(it, CondV):
+            return Term("masked", [g, it])
         return Top(f"index of kind {type(it).__name__}")
     out_dims.extend(dims[k:])
     if not out_dims:
